@@ -4,7 +4,7 @@
 import json, os, re, glob
 
 SEEDED = "/verif/seeded"
-LOGS = "/tmp/seedlogs"
+LOGS = "/tmp/seedlogs_final"
 
 
 def parse_log(path):
@@ -20,7 +20,7 @@ def parse_log(path):
         m = re.match(r"INCONCLUSIVE property=\S+ reason=(.*)", line)
         if m and cur_incon is None:
             cur_incon = m.group(1)[:160]
-        m = re.match(r"rc\[(C\d+)\]=(\d+)", line)
+        m = re.match(r"rc\[(C\d+(?:-thorough)?)\]=(\d+)", line)
         if m:
             res[m.group(1)] = {"rc": int(m.group(2)), "caught_by": cur_labels, "inconclusive": cur_incon}
             cur_labels, cur_incon = [], None
@@ -36,11 +36,12 @@ def main():
             continue
         meta = json.load(open(mp))
         pid = meta["property"]
-        root = "seedout3" if name.endswith("-r3") else ("seedout2" if name.endswith("-r2") else "seedout")
-        lp = os.path.join(LOGS, "%s_%s.log" % (root, pid))
-        if os.path.exists(lp):
+        lp = os.path.join(LOGS, "%s.log" % name)
+        if os.path.exists(lp) and os.path.getsize(lp) > 0:
             meta["checks_run"] = parse_log(lp)
-            meta["checks_run_cmd"] = "./seedtest.sh seeded/%s/patch.diff %s   (applies the change to a scratch worktree of /repo, runs the quick checks, removes it)" % (name, " ".join(meta["checks_run"]))
+            if "PATCH DOES NOT APPLY" in open(lp).read():
+                meta["checks_run"] = {pid: {"rc": 3, "caught_by": [], "inconclusive": None}}
+            meta["checks_run_cmd"] = "./seedfinal.sh %s   (applies the change to a scratch worktree of /repo, runs the listed checks until one reports a violation, removes the worktree)" % name
         json.dump(meta, open(mp, "w"), indent=1)
         cr = meta.get("checks_run", {})
         verdicts = []
@@ -59,7 +60,7 @@ def main():
         f.write("# Seeded changes and what catches them\n\n")
         f.write("Each directory holds `patch.diff` (the change), the demonstration (`*_test.go.txt`), the author's `notes.md` and `meta.json`\n")
         f.write("(property, what it needs to manifest, how it was confirmed, which checks were run against it and what they said).\n")
-        f.write("`-r2` = second round, written against the tree with the `fix:` commits. Round-1 changes were confirmed against the tree of their time;\n")
+        f.write("`-r2`/`-r3` = second/third round, written against the tree with the `fix:` commits. Round-1 changes were confirmed against the tree of their time;\n")
         f.write("some no longer apply or are neutralised by a later fix (noted).\n\n")
         f.write("| seed | property | change (short) | result of the quick checks | note |\n|---|---|---|---|---|\n")
         for r in rows:
